@@ -13,7 +13,8 @@ Definition spc := (Z * Z * bid)%type.     (* a signed precommit for a block: hei
 
 Definition opcs (out : output) : list spc :=
   match out with
-  | OSignVote ty h r (Some b) => if (ty =? PRECOMMIT)%N then [(h, r, b)] else []
+  | OSignVote ty h r x =>
+    if (ty =? PRECOMMIT)%N then match x with Some b => [(h, r, b)] | None => [] end else []
   | _ => []
   end.
 Definition pcs (o : list output) : list spc := flat_map opcs o.
@@ -122,8 +123,9 @@ Proof.
   - exact (le3_trans _ _ _ (AB _ _ _ Hin) (Incr_le _ _ _ G)).
   - assert (Hk : In (h, r, 6) (keys o)).
     { unfold pcs in Hin. apply in_flat_map in Hin as (out & Ho & Hin). unfold keys. apply in_flat_map. exists out. split; [exact Ho|].
-      destruct out; cbn in Hin; try contradiction. destruct b0 as [bb|]; [|contradiction].
-      destruct ((ty =? PRECOMMIT)%N) eqn:Et; [|contradiction]. destruct Hin as [Hin|[]]. injection Hin as -> -> ->.
+      destruct out; cbn in Hin; try contradiction.
+      destruct ((ty =? PRECOMMIT)%N) eqn:Et; [|contradiction]. destruct b0 as [bb|]; [|contradiction].
+      destruct Hin as [Hin|[]]. injection Hin as -> -> ->.
       apply N.eqb_eq in Et. subst ty. cbn. left. reflexivity. }
     destruct (Incr_all_above _ _ _ _ G Hk) as [_ L]. exact L.
 Qed.
@@ -167,6 +169,435 @@ Proof.
       intros _ r0 b0 Hin Hlt Hne. destruct C as (_ & LI & _).
       destruct (LI _ _ _ Hin eq_refl) as [(lb & L1 & L2 & L3)|Rl]; [|exact Rl].
       exfalso. apply Hne. rewrite (Hx lb L1), L2. reflexivity.
+Qed.
+
+
+(* ---------------------------------------------------------------- the combined invariant *)
+
+Definition Full (D : list vote) (P : list N) (SPC : list spc) (s : cstate) : Prop :=
+  Core D P SPC s /\ AllBelow SPC s /\ SchedInv s.
+
+(* what each function has to deliver *)
+Definition LK (D : list vote) (P : list N) (SPC : list spc) (s s' : cstate) (o : list output) : Prop :=
+  Full D P (SPC ++ pcs o) s' /\ outs_ok D P SPC o.
+
+Lemma lk_from_core D P SPC s s' o :
+  Full D P SPC s -> Good s s' o -> Core D P (SPC ++ pcs o) s' -> outs_ok D P SPC o -> LK D P SPC s s' o.
+Proof.
+  intros (_ & AB & SI) G C O. split; [|exact O]. split; [exact C|]. split.
+  - eapply good_allbelow; eassumption.
+  - apply G. exact SI.
+Qed.
+
+Lemma lk_nil D P SPC s : Full D P SPC s -> LK D P SPC s s [].
+Proof. intro F. split; [cbn; rewrite app_nil_r; exact F | exact I]. Qed.
+
+Lemma lk_trans D P SPC a b c o1 o2 :
+  LK D P SPC a b o1 -> LK D P (SPC ++ pcs o1) b c o2 -> LK D P SPC a c (o1 ++ o2).
+Proof.
+  intros [F1 O1] [F2 O2]. split.
+  - rewrite pcs_app, app_assoc. exact F2.
+  - apply outs_ok_app. auto.
+Qed.
+
+(* a quiet state change (Rel) under the order/scheduler guarantees *)
+Lemma lk_rel D P SPC s s' :
+  Full D P SPC s -> Rel s s' -> Good s s' [] -> LK D P SPC s s' [].
+Proof.
+  intros F R G. apply lk_from_core; try assumption; [|exact I].
+  cbn. rewrite app_nil_r. eapply core_rel; [apply F | exact R].
+Qed.
+
+Lemma seq_lk D P SPC (f g : M) s s' o (Pre : cstate -> Prop) :
+  seq f g s = (s', o) ->
+  (forall s1 o1, f s = (s1, o1) -> LK D P SPC s s1 o1 /\ (cs_halted s1 = false -> Pre s1)) ->
+  (forall SPC1 s1 s2 o2, cs_halted s1 = false -> Pre s1 -> Full D P SPC1 s1 -> g s1 = (s2, o2) -> LK D P SPC1 s1 s2 o2) ->
+  LK D P SPC s s' o.
+Proof.
+  intros Eq Hf Hg. unfold seq in Eq. destruct (f s) as [s1 o1] eqn:Ef.
+  destruct (Hf s1 o1 eq_refl) as [L1 P1].
+  destruct (cs_halted s1) eqn:Hh1.
+  - injection Eq as <- <-. exact L1.
+  - destruct (g s1) as [s2 o2] eqn:Eg. injection Eq as <- <-.
+    eapply lk_trans; [exact L1 | eapply Hg; [exact Hh1 | apply P1; reflexivity | apply L1 | exact Eg]].
+Qed.
+
+(* ---------------------------------------------------------------- simple setters are Rel *)
+
+Lemma rel_add_sched ti s : Rel s (add_sched ti s).
+Proof. unfold Rel, has_block. cs. repeat split; auto; lia. Qed.
+Lemma rel_set_halted s : Rel s (set_halted s).
+Proof. unfold Rel, has_block. cs. repeat split; auto; lia. Qed.
+Lemma rel_set_triggered b s : Rel s (set_triggered b s).
+Proof. unfold Rel, has_block. cs. repeat split; auto; lia. Qed.
+Lemma rel_set_commit_round r s : Rel s (set_commit_round r s).
+Proof. unfold Rel, has_block. cs. repeat split; auto; lia. Qed.
+Lemma rel_set_last_commit lc s : Rel s (set_last_commit lc s).
+Proof. unfold Rel, has_block. cs. repeat split; auto; lia. Qed.
+Lemma rel_set_prop p b pp s : (forall x, b = Some x -> has_block s x) -> Rel s (set_prop p b pp s).
+Proof.
+  intro Hb. unfold Rel. cs. repeat split; auto; try lia.
+  intros x [Hx|[Hx|Hx]]; cs; [apply Hb; exact Hx | right; left; exact Hx | right; right; exact Hx].
+Qed.
+Lemma rel_set_valid r b pp s : (forall x, b = Some x -> has_block s x) -> Rel s (set_valid r b pp s).
+Proof.
+  intro Hb. unfold Rel. cs. repeat split; auto; try lia.
+  intros x [Hx|[Hx|Hx]]; cs; [left; exact Hx | right; left; exact Hx | apply Hb; exact Hx].
+Qed.
+
+Lemma panic_lk D P SPC c s : Full D P SPC s -> LK D P SPC s (fst (panic c s)) (snd (panic c s)).
+Proof.
+  intro F. unfold panic. cbn [fst snd].
+  apply lk_from_core; [exact F | exact (rgood_good _ _ _ (panic_rgood c s)) | | split; [exact I | exact I]].
+  cbn. rewrite app_nil_r. eapply core_rel; [apply F | apply rel_set_halted].
+Qed.
+
+(* ---------------------------------------------------------------- enterPrevote .. enterNewRound *)
+
+Lemma enter_prevote_lk D P SPC height round s s' o :
+  Full D P SPC s -> cs_halted s = false -> round_ok height round s ->
+  enter_prevote E height round s = (s', o) -> LK D P SPC s s' o /\ cs_halted s' = false.
+Proof.
+  intros F Hh Hr Eq.
+  destruct (enter_prevote_good E height round s s' o Hh Hr Eq) as [G Hh'].
+  destruct (enter_prevote_lock D P SPC height round s s' o (proj1 F) Hh Hr Eq) as [C O].
+  split; [|exact Hh']. apply lk_from_core; try assumption. apply rgood_good. exact G.
+Qed.
+
+Lemma decide_proposal_out height round s :
+  snd (decide_proposal E height round s) = [] \/
+  exists p u, snd (decide_proposal E height round s) = [OSignProposal height round p u].
+Proof.
+  unfold decide_proposal. destruct (cs_vblock s); [right; do 2 eexists; reflexivity|].
+  match goal with |- context [if ?c then _ else _] => destruct c end; [right; do 2 eexists; reflexivity | left; reflexivity].
+Qed.
+
+Lemma enter_propose_lk D P SPC height round s s' o :
+  Full D P SPC s -> cs_halted s = false -> enter_propose E height round s = (s', o) ->
+  LK D P SPC s s' o /\ cs_halted s' = false /\ round_ok height round s'.
+Proof.
+  intros F Hh Eq.
+  destruct (enter_propose_good E height round s s' o Hh Eq) as (G & Hh' & Rk).
+  split; [|split; assumption].
+  unfold enter_propose in Eq.
+  destruct (negb (cs_height s =? height) || (round <? cs_round s) || ((cs_round s =? round) && step_le SPropose (cs_step s))) eqn:Gd.
+  - injection Eq as <- <-. apply lk_nil. exact F.
+  - unfold step_le in Gd. bool_to_prop.
+    set (s1 := add_sched {| ti_height := height; ti_round := round; ti_step := SPropose |} s) in *.
+    assert (Hh1 : cs_halted s1 = false) by (subst s1; cs; exact Hh).
+    assert (Dec : exists od, (match e_me E with
+                     | Some me => if me =? e_proposer E (cs_height s1) (cs_round s1) then decide_proposal E height round s1 else (s1, [])
+                     | None => (s1, []) end) = (s1, od) /\ (od = [] \/ exists p u, od = [OSignProposal height round p u])).
+    { destruct (e_me E) as [me|]; [|exists []; auto].
+      destruct (me =? e_proposer E (cs_height s1) (cs_round s1)); [|exists []; auto].
+      destruct (decide_proposal_keys E height round s1) as [A _]. pose proof (decide_proposal_out height round s1) as B.
+      destruct (decide_proposal E height round s1) as [x od]. cbn [fst snd] in A, B. subst x. exists od. auto. }
+    destruct Dec as (od & Ed & Kd).
+    unfold seq at 1 in Eq. rewrite seq_schedule in Eq by exact Hh. fold s1 in Eq. rewrite Ed in Eq.
+    rewrite Hh1 in Eq. rewrite seq_modify in Eq by (cs; exact Hh1).
+    set (s2 := set_rs round SPropose s1) in *.
+    assert (Hh2 : cs_halted s2 = false) by (subst s2; cs; exact Hh1).
+    assert (Pod : pcs (OSchedule height round SPropose :: od) = []).
+    { destruct Kd as [-> | (p & u & ->)]; reflexivity. }
+    assert (C2 : Core D P SPC s2).
+    { eapply core_rel; [apply F|]. eapply Rel_trans; [apply rel_add_sched|]. apply rel_set_rs. subst s1. cs. lia. }
+    assert (O2 : outs_ok D P SPC (OSchedule height round SPropose :: od)).
+    { destruct Kd as [-> | (p & u & ->)]; cbn; rewrite ?app_nil_r; auto. }
+    destruct (is_proposal_complete s2).
+    + destruct (enter_prevote E height (cs_round s2) s2) as [s3 o3] eqn:E3. injection Eq as <- <-.
+      destruct (enter_prevote_lock D P SPC height (cs_round s2) s2 s3 o3 C2 Hh2 ltac:(intro; lia) E3) as [C3 O3].
+      change (OSchedule height round SPropose :: od ++ o3) with ((OSchedule height round SPropose :: od) ++ o3) in *.
+      apply lk_from_core; [exact F | apply rgood_good; exact G | rewrite pcs_app, Pod; exact C3 |].
+      apply outs_ok_app. rewrite Pod, app_nil_r. auto.
+    + injection Eq as <- <-. rewrite app_nil_r in *.
+      apply lk_from_core; [exact F | apply rgood_good; exact G | rewrite Pod, app_nil_r; exact C2 | exact O2].
+Qed.
+
+Lemma core_set_votes D P SPC hv' s :
+  Core D P SPC s -> HVInv D (e_vals E) hv' -> hv_height hv' = cs_height s -> Core D P SPC (set_votes hv' s).
+Proof.
+  intros (HI & LI & BI) H1 H2. split; [|split].
+  - split; cs; assumption.
+  - intros h r b Hin Hh. cs. exact (LI h r b Hin Hh).
+  - intros b Hb. apply BI. unfold has_block in *. cs. exact Hb.
+Qed.
+
+Lemma enter_new_round_lk D P SPC height round s s' o :
+  Full D P SPC s -> cs_halted s = false -> enter_new_round E height round s = (s', o) ->
+  LK D P SPC s s' o /\ cs_halted s' = false /\ round_ok height round s'.
+Proof.
+  intros F Hh Eq.
+  destruct (enter_new_round_good E height round s s' o Hh Eq) as (G & Hh' & Rk).
+  split; [|split; assumption].
+  unfold enter_new_round in Eq.
+  destruct (negb (cs_height s =? height) || (round <? cs_round s) || ((cs_round s =? round) && negb (step_eqb (cs_step s) SNewHeight))) eqn:Gd.
+  - injection Eq as <- <-. apply lk_nil. exact F.
+  - bool_to_prop.
+    match type of Eq with enter_propose E height round ?x = _ => set (s3 := x) in * end.
+    assert (Hh3 : cs_halted s3 = false) by (subst s3; destruct (round =? 0); cs; exact Hh).
+    assert (C3 : Core D P SPC s3).
+    { destruct F as ((HI & LI & BI) & _).
+      set (sa := set_rs round SNewRound s).
+      assert (Ca : Core D P SPC sa) by (eapply core_rel; [split; [exact HI | split; assumption] | apply rel_set_rs; lia]).
+      set (sb := if round =? 0 then sa else set_prop None None None sa).
+      assert (Cb : Core D P SPC sb).
+      { subst sb. destruct (round =? 0); [exact Ca|]. eapply core_rel; [exact Ca | apply rel_set_prop; intros x Hx; discriminate]. }
+      destruct Cb as (HIb & LIb & BIb). destruct HIb as [HIb1 HIb2].
+      destruct (hv_set_round_inv D (e_vals E) (cs_votes sb) (round + 1) HIb1) as [A B].
+      subst s3. fold sa. fold sb.
+      apply (core_rel D P SPC (set_votes (hv_set_round (cs_votes sb) (round + 1)) sb)); [|apply rel_set_triggered].
+      apply core_set_votes; [split; [split; assumption | split; assumption] | exact A | rewrite B; exact HIb2]. }
+    (* Good for the quiet prefix, then enter_propose *)
+    assert (Q : RGood s s3 []).
+    { apply rgood_quiet; subst s3; destruct (round =? 0); cs; try reflexivity; try lia;
+        intro Er; unfold step_eqb in *; destruct H0 as [H0|H0]; bool_to_prop; try lia; rewrite H0; cbn; lia. }
+    assert (F3 : Full D P SPC s3).
+    { split; [exact C3|]. destruct F as (_ & AB & SI). split.
+      - pose proof (good_allbelow s s3 [] SPC (rgood_good _ _ _ Q) AB) as AB3. cbn in AB3. rewrite app_nil_r in AB3. exact AB3.
+      - apply (proj2 (rgood_good _ _ _ Q)). exact SI. }
+    destruct (enter_propose_lk D P SPC height round s3 s' o F3 Hh3 Eq) as ([F' O'] & _).
+    split; [|exact O']. exact F'.
+Qed.
+
+Lemma enter_prevote_wait_lk D P SPC height round s s' o :
+  Full D P SPC s -> cs_halted s = false -> round_ok height round s ->
+  enter_prevote_wait height round s = (s', o) -> LK D P SPC s s' o.
+Proof.
+  intros F Hh Hr Eq.
+  pose proof (enter_prevote_wait_good height round s s' o Hh Hr Eq) as G.
+  unfold enter_prevote_wait in Eq.
+  destruct (negb (cs_height s =? height) || (round <? cs_round s) || ((cs_round s =? round) && step_le SPrevoteWait (cs_step s))) eqn:Gd.
+  - injection Eq as <- <-. apply lk_nil. exact F.
+  - destruct (negb (o_has_any (prevotes (cs_votes s) round))).
+    + pose proof (panic_lk D P SPC 1 s F) as L. rewrite Eq in L. exact L.
+    + rewrite seq_schedule in Eq by exact Hh. unfold modify in Eq. injection Eq as <- <-.
+      apply lk_from_core; [exact F | apply rgood_good; exact G | | cbn; auto].
+      cbn. rewrite app_nil_r. eapply core_rel; [apply F|].
+      eapply Rel_trans; [apply rel_add_sched | apply rel_set_rs]. cs. unfold step_le in Gd. bool_to_prop. lia.
+Qed.
+
+Lemma enter_precommit_wait_lk D P SPC height round s s' o :
+  Full D P SPC s -> cs_halted s = false -> round_ok height round s ->
+  enter_precommit_wait height round s = (s', o) -> LK D P SPC s s' o.
+Proof.
+  intros F Hh Hr Eq.
+  pose proof (enter_precommit_wait_good height round s s' o Hh Hr Eq) as G.
+  unfold enter_precommit_wait in Eq.
+  destruct (negb (cs_height s =? height) || (round <? cs_round s) || ((cs_round s =? round) && cs_triggered s)) eqn:Gd.
+  - injection Eq as <- <-. apply lk_nil. exact F.
+  - destruct (negb (o_has_any (precommits (cs_votes s) round))).
+    + pose proof (panic_lk D P SPC 4 s F) as L. rewrite Eq in L. exact L.
+    + rewrite seq_schedule in Eq by exact Hh. unfold modify in Eq. injection Eq as <- <-.
+      apply lk_from_core; [exact F | apply rgood_good; exact G | | cbn; auto].
+      cbn. rewrite app_nil_r. eapply core_rel; [apply F|].
+      eapply Rel_trans; [apply rel_add_sched | apply rel_set_triggered].
+Qed.
+
+
+(* ---------------------------------------------------------------- enterPrecommit *)
+
+Lemma polka_from_state D s r x :
+  HInv D s -> o_maj23 (prevotes (cs_votes s) r) = Some x -> Polka D (cs_height s) r x.
+Proof.
+  intros [H1 H2] Hm. unfold prevotes in Hm. destruct (hv_get (cs_votes s) r PREVOTE) as [vs|] eqn:G; [|discriminate].
+  cbn in Hm. pose proof (hv_get_good D (e_vals E) (cs_votes s) r PREVOTE vs H1 G) as Gs. cbn in Gs.
+  rewrite <- H2. eapply good_set_quorum; eassumption.
+Qed.
+
+Lemma hashes_to_some b h : hashes_to b h = true -> exists lb, b = Some lb /\ b_hash lb = h.
+Proof. destruct b as [lb|]; cbn; [intro H; apply N.eqb_eq in H; eauto | discriminate]. Qed.
+Lemma hashes_to_false lb h : hashes_to (Some lb) h = false -> b_hash lb <> h.
+Proof. cbn. intro H. apply N.eqb_neq in H. exact H. Qed.
+
+(* unlocking is justified by a polka for something else in the current round *)
+Lemma core_unlock D P SPC s y :
+  Core D P SPC s -> AllBelow SPC s -> step_rank (cs_step s) < 6 ->
+  Polka D (cs_height s) (cs_round s) y ->
+  (forall lb, cs_lblock s = Some lb -> bhash y <> Some (b_hash lb)) ->
+  Core D P SPC (set_locked (-1) None None s).
+Proof.
+  intros (HI & LI & BI) AB Hst Hp Hy. split; [|split].
+  - destruct HI as [H1 H2]. split; cs; assumption.
+  - intros h r b Hin Hh. cs. right. destruct (LI h r b Hin Hh) as [(lb & L1 & L2 & L3)|Rl]; [|exact Rl].
+    exists (cs_round s), y. split; [|split].
+    + pose proof (AB h r b Hin) as A. unfold le3, pos in A. lia.
+    + rewrite <- L2. apply Hy. exact L1.
+    + rewrite Hh. exact Hp.
+  - intros b Hb. apply BI. unfold has_block in *. cs. destruct Hb as [Hb|[Hb|Hb]]; try discriminate; auto.
+Qed.
+
+(* locking (or relocking) on a block that got the polka in the current round *)
+Lemma core_lock D P SPC s (lb : block) (pp : option partset) (ph : psh) :
+  Core D P SPC s -> AllBelow SPC s -> step_rank (cs_step s) < 6 ->
+  Polka D (cs_height s) (cs_round s) (Some (b_hash lb, ph)) ->
+  has_block s lb ->
+  Core D P (SPC ++ [(cs_height s, cs_round s, (b_hash lb, ph))]) (set_locked (cs_round s) (Some lb) pp s).
+Proof.
+  intros (HI & LI & BI) AB Hst Hp Hb. split; [|split].
+  - destruct HI as [H1 H2]. split; cs; assumption.
+  - intros h r b Hin Hh. cs. apply in_app_or in Hin as [Hin|[Hin|[]]].
+    + pose proof (AB h r b Hin) as A. unfold le3, pos in A.
+      destruct (LI h r b Hin Hh) as [(lb0 & L1 & L2 & L3)|Rl]; [|right; exact Rl].
+      destruct (N.eq_dec (b_hash lb) (fst b)) as [e|n].
+      * left. exists lb. split; [reflexivity | split; [exact e | lia]].
+      * right. exists (cs_round s), (Some (b_hash lb, ph)). split; [lia|]. split; [cbn; congruence | rewrite Hh; exact Hp].
+    + injection Hin as <- <- <-. left. exists lb. cbn. split; [reflexivity | split; [reflexivity | lia]].
+  - intros b [Hx|[Hx|Hx]]; cs; apply BI.
+    + left; exact Hx.
+    + injection Hx as <-. exact Hb.
+    + right; right; exact Hx.
+Qed.
+
+Lemma enter_precommit_lk D P SPC height round s s' o :
+  Full D P SPC s -> cs_halted s = false -> round_ok height round s ->
+  enter_precommit E height round s = (s', o) -> LK D P SPC s s' o.
+Proof.
+  intros F Hh Hr Eq.
+  pose proof (enter_precommit_good E height round s s' o Hh Hr Eq) as G. apply rgood_good in G.
+  unfold enter_precommit in Eq.
+  destruct (negb (cs_height s =? height) || (round <? cs_round s) || ((cs_round s =? round) && step_le SPrecommit (cs_step s))) eqn:Gd.
+  - injection Eq as <- <-. apply lk_nil. exact F.
+  - unfold step_le in Gd. bool_to_prop. specialize (Hr ltac:(lia)). assert (round = cs_round s) by lia. subst round.
+    assert (Hst : step_rank (cs_step s) < 6) by (cbn in *; lia).
+    destruct F as (C & AB & SI).
+    assert (FF : Full D P SPC s) by (split; [exact C | split; assumption]).
+    (* the tail after a state x obtained quietly from s, signing a precommit for [b] *)
+    assert (Tail : forall (f : cstate -> cstate) b extra,
+              cs_halted (f s) = false -> cs_height (f s) = cs_height s -> cs_round (f s) = cs_round s ->
+              Core D P (SPC ++ extra) (f s) ->
+              (match b with Some bb => extra = [(cs_height s, cs_round s, bb)] /\ Polka D (cs_height s) (cs_round s) (Some bb) /\ In (fst bb) P
+                          | None => extra = [] end) ->
+              seq (modify f) (seq (sign_add_vote E PRECOMMIT b) (modify (set_rs (cs_round s) SPrecommit))) s = (s', o) ->
+              LK D P SPC s s' o).
+    { intros f b extra F5 F1 F2 Cx Hb Eq'. rewrite seq_modify in Eq' by exact F5.
+      unfold seq in Eq'. unfold sign_add_vote in Eq'.
+      destruct (is_validator E).
+      - rewrite F5 in Eq'. unfold modify in Eq'. injection Eq' as <- <-. rewrite F1, F2 in G |- *.
+        apply lk_from_core; [exact FF | exact G | |].
+        + cbn [pcs flat_map opcs app]. change (PRECOMMIT =? PRECOMMIT)%N with true. cbv iota.
+          destruct b as [bb|]; [destruct Hb as (-> & _ & _)|subst extra]; cbn [app]; rewrite ?app_nil_r in *;
+            (eapply core_rel; [exact Cx | apply rel_set_rs; lia]).
+        + cbn [outs_ok app]. split; [|exact I]. split; [intro Hty; discriminate|].
+          intros _ bb Hbb. subst b. destruct Hb as (_ & Hp & Hin). auto.
+      - rewrite F5 in Eq'. unfold modify in Eq'. injection Eq' as <- <-.
+        apply lk_from_core; [exact FF | exact G | | exact I].
+        cbn. rewrite app_nil_r.
+        (* nothing was signed: the extra entry is not recorded, drop it *)
+        eapply core_rel; [|apply rel_set_rs; lia].
+        destruct Cx as (HIx & LIx & BIx). split; [exact HIx | split; [|exact BIx]].
+        intros h r b0 Hin Hh0. apply LIx; [apply in_or_app; left; exact Hin | exact Hh0]. }
+    destruct (o_maj23 (prevotes (cs_votes s) (cs_round s))) as [polka|] eqn:Maj.
+    2:{ (* no polka: precommit nil *)
+        apply (Tail (fun x => x) None []); try reflexivity; try exact Hh.
+        - rewrite app_nil_r. exact C.
+        - unfold seq at 1, modify. rewrite Hh. cbn [app].
+          destruct (seq (sign_add_vote E PRECOMMIT None) (fun s0 => (set_rs (cs_round s) SPrecommit s0, [])) s) as [a b] eqn:Es.
+          unfold modify in Eq. rewrite Es in Eq. exact Eq. }
+    pose proof (polka_from_state D s (cs_round s) polka (proj1 C) Maj) as Hpol.
+    destruct (fst (pol_info (cs_votes s)) <? cs_round s).
+    { pose proof (panic_lk D P SPC 2 s FF) as L. rewrite Eq in L. exact L. }
+    destruct polka as [[h ph]|].
+    2:{ (* +2/3 nil: unlock *)
+        refine (Tail _ None [] _ _ _ _ eq_refl Eq); cbv beta; destruct (cs_lblock s) eqn:El; cs; try reflexivity; try exact Hh.
+        - rewrite app_nil_r. apply (core_unlock D P SPC s None C AB Hst Hpol). intros lb _. discriminate.
+        - rewrite app_nil_r. exact C. }
+    destruct (hashes_to (cs_lblock s) h) eqn:HL.
+    { (* relock *)
+      destruct (hashes_to_some _ _ HL) as (lb & El & Ehh). subst h.
+      refine (Tail _ (Some (b_hash lb, ph)) _ _ _ _ _ _ Eq); cbv beta; cs; try reflexivity; try exact Hh.
+      - rewrite El. apply (core_lock D P SPC s lb _ ph); try assumption. right; left; exact El.
+      - split; [reflexivity | split; [exact Hpol|]]. cbn. destruct C as (_ & _ & BI). apply BI. right; left; exact El. }
+    destruct (hashes_to (cs_pblock s) h) eqn:HP.
+    { destruct (hashes_to_some _ _ HP) as (pb & Ep & Ehh). subst h. rewrite Ep in Eq.
+      destruct (negb (b_valid pb)).
+      - pose proof (panic_lk D P SPC 3 s FF) as L. rewrite Eq in L. exact L.
+      - refine (Tail _ (Some (b_hash pb, ph)) _ _ _ _ _ _ Eq); cbv beta; cs; try reflexivity; try exact Hh.
+        + rewrite Ep. apply (core_lock D P SPC s pb _ ph); try assumption. left; exact Ep.
+        + split; [reflexivity | split; [exact Hpol|]]. cbn. destruct C as (_ & _ & BI). apply BI. left; exact Ep. }
+    (* polka for a block we do not have: unlock *)
+    assert (Cu : Core D P SPC (set_locked (-1) None None s)).
+    { apply (core_unlock D P SPC s (Some (h, ph)) C AB Hst Hpol). intros lb El. rewrite El in HL.
+      apply hashes_to_false in HL. cbn. congruence. }
+    refine (Tail _ None [] _ _ _ _ eq_refl Eq); cbv beta zeta;
+      destruct (has_header (cs_pparts (set_locked (-1) None None s)) ph); cs; try reflexivity; try exact Hh;
+      rewrite app_nil_r; try exact Cu.
+    eapply core_rel; [exact Cu | apply rel_set_prop; intros x Hx; discriminate].
+Qed.
+
+
+(* ---------------------------------------------------------------- commit path *)
+
+Lemma update_to_next_height_lk D P SPC s s' o :
+  Full D P SPC s -> cs_halted s = false -> update_to_next_height E s = (s', o) -> LK D P SPC s s' o.
+Proof.
+  intros F Hh Eq. pose proof (update_to_next_height_good E s s' o Hh Eq) as G.
+  unfold update_to_next_height in Eq.
+  destruct (negb (o_has_maj23 (precommits (cs_votes s) (cs_commit_round s)))).
+  - pose proof (panic_lk D P SPC 5 s F) as L. rewrite Eq in L. exact L.
+  - rewrite seq_modify in Eq by reflexivity. unfold schedule in Eq. injection Eq as <- <-.
+    apply lk_from_core; [exact F | exact G | | cbn; auto].
+    cbn [pcs flat_map opcs app]. rewrite app_nil_r.
+    eapply core_rel; [|apply rel_add_sched].
+    destruct F as (_ & AB & _). split; [|split].
+    + destruct (new_hvs_inv D (cs_height s + 1) (e_vals E)) as [A B]. split; cbn; assumption.
+    + intros h r b Hin Hh'. cbn in Hh'. pose proof (AB h r b Hin) as A. unfold le3, pos in A. lia.
+    + intros b [Hb|[Hb|Hb]]; cbn in Hb; discriminate.
+Qed.
+
+Lemma finalize_commit_lk D P SPC height s s' o :
+  Full D P SPC s -> cs_halted s = false -> finalize_commit E height s = (s', o) -> LK D P SPC s s' o.
+Proof.
+  intros F Hh Eq. unfold finalize_commit in Eq.
+  destruct (negb (cs_height s =? height) || negb (step_eqb (cs_step s) SCommit)); [injection Eq as <- <-; apply lk_nil; exact F|].
+  assert (Pn : forall c, panic c s = (s', o) -> LK D P SPC s s' o).
+  { intros c Ep. pose proof (panic_lk D P SPC c s F) as L. rewrite Ep in L. exact L. }
+  destruct (o_maj23 (precommits (cs_votes s) (cs_commit_round s))) as [[[h ph]|]|]; try (eapply Pn; exact Eq).
+  destruct (negb (has_header (cs_pparts s) ph)); [eapply Pn; exact Eq|].
+  destruct (negb (hashes_to (cs_pblock s) h)); [eapply Pn; exact Eq|].
+  destruct (cs_pblock s) as [pb|]; [|eapply Pn; exact Eq].
+  destruct (negb (b_valid pb)); [eapply Pn; exact Eq|].
+  unfold seq, emit in Eq. rewrite Hh in Eq.
+  destruct (update_to_next_height E s) as [s2 o2] eqn:Eu. injection Eq as <- <-.
+  pose proof (update_to_next_height_lk D P SPC s s2 o2 F Hh Eu) as [A B].
+  split; [exact A | cbn [app outs_ok opcs]; rewrite app_nil_r; split; [exact I | exact B]].
+Qed.
+
+Lemma try_finalize_commit_lk D P SPC height s s' o :
+  Full D P SPC s -> cs_halted s = false -> try_finalize_commit E height s = (s', o) -> LK D P SPC s s' o.
+Proof.
+  intros F Hh Eq. unfold try_finalize_commit in Eq.
+  destruct (negb (cs_height s =? height)).
+  { pose proof (panic_lk D P SPC 10 s F) as L. rewrite Eq in L. exact L. }
+  destruct (o_maj23 (precommits (cs_votes s) (cs_commit_round s))) as [[[h ph]|]|];
+    try (injection Eq as <- <-; apply lk_nil; exact F).
+  destruct (hashes_to (cs_pblock s) h); [|injection Eq as <- <-; apply lk_nil; exact F].
+  eapply finalize_commit_lk; eassumption.
+Qed.
+
+Lemma full_rel D P SPC s s' : Full D P SPC s -> Rel s s' -> Good s s' [] -> Full D P SPC s'.
+Proof. intros F R G. pose proof (lk_rel D P SPC s s' F R G) as [A _]. cbn in A. rewrite app_nil_r in A. exact A. Qed.
+
+Lemma enter_commit_lk D P SPC height cr s s' o :
+  Full D P SPC s -> cs_halted s = false -> enter_commit E height cr s = (s', o) -> LK D P SPC s s' o.
+Proof.
+  intros F Hh Eq. unfold enter_commit in Eq.
+  destruct (negb (cs_height s =? height) || step_le SCommit (cs_step s)) eqn:G; [injection Eq as <- <-; apply lk_nil; exact F|].
+  unfold step_le in G. bool_to_prop.
+  destruct (o_maj23 (precommits (cs_votes s) cr)) as [polka|].
+  2:{ pose proof (panic_lk D P SPC 11 s F) as L. rewrite Eq in L. exact L. }
+  match type of Eq with try_finalize_commit E height ?x = _ => set (s3 := x) in * end.
+  assert (Q : RGood s s3 [] /\ cs_halted s3 = false /\ Rel s s3).
+  { subst s3.
+    repeat match goal with |- context [if ?c then _ else _] => destruct c end;
+      (split; [apply rgood_quiet; cs; try reflexivity; try lia; intros _; pose proof (step_rank_range (cs_step s)); cbn; lia
+              | split; [cs; exact Hh|]]);
+      repeat (eapply Rel_trans; [|first [apply rel_set_commit_round | apply rel_set_rs; cs; lia]]);
+      try apply Rel_refl;
+      repeat (first [apply Rel_refl | eapply Rel_trans; [apply rel_set_prop; intros x Hx; first [discriminate | right; left; exact Hx]|]]). }
+  destruct Q as (Q & Hh3 & R3).
+  pose proof (full_rel D P SPC s s3 F R3 (rgood_good _ _ _ Q)) as F3.
+  pose proof (try_finalize_commit_lk D P SPC height s3 s' o F3 Hh3 Eq) as [A B].
+  split; assumption.
 Qed.
 
 End Lock.
